@@ -177,3 +177,40 @@ def run_W3(rep, g):
             ok = consts and all(c == const for c in consts) and all(widths.get(r) == const for r in reads if r in widths) and any(r in widths for r in reads)
             rep.check('W3', 'stride|' + path, ok, 'stride constants %s, reads %s (expected %d-byte elements)' % (consts, reads, const), fn.loc(),
                       why='stride %d with %d-byte reads' % (const, const))
+
+
+def run_F_lookup(rep, g, rule='F-offset-id'):
+    """every section-holding field of read::Dwarf participates in Dwarf::lookup_offset_id"""
+    rep.rule(rule, 'field coverage: every section field of read::Dwarf (a field whose type implements Section, or the two list wrappers) '
+             'is consulted by Dwarf::lookup_offset_id, so an error raised inside any loaded section can be mapped back to (section, offset)')
+    adt = g.adt('read::dwarf::Dwarf')
+    section_types = {i['self_adt'] for i in g.impls if i['trait'] == 'read::Section' and i['self_adt']}
+    wrappers = {'read::loclists::LocationLists', 'read::rnglists::RangeLists'}
+    fields = []
+    for f in adt['variants'][0]['fields']:
+        base = f['ty'].split('<')[0]
+        if base in section_types or base in wrappers:
+            fields.append(f['name'])
+    rep.floor(rule, 'section fields of read::Dwarf', len(fields), 14)
+    touched = set()
+    for p, fn in g.fns.items():
+        if p == 'read::dwarf::Dwarf::<R>::lookup_offset_id' or p.startswith('read::dwarf::Dwarf::<R>::lookup_offset_id::{closure'):
+            for bi in fn.reach:
+                stmts, t = fn.blocks[bi]
+                pls = [st[1] for st in stmts if st[0] == 'a'] + [st[2][1] for st in stmts if st[0] == 'a' and st[2][0] in ('ref', 'cfd')]
+                for st in stmts:
+                    if st[0] == 'a':
+                        from .facts import rv_operands
+                        for o in rv_operands(st[2]):
+                            if o[0] in ('c', 'm'):
+                                pls.append(o[1])
+                for pl in pls:
+                    for pr in pl[1:]:
+                        if isinstance(pr, list) and pr[0] == 'f' and pr[3] is not None and g.strs[pr[3]] == 'read::dwarf::Dwarf':
+                            touched.add(pr[2])
+    fn = g.fn('read::dwarf::Dwarf::<R>::lookup_offset_id')
+    for f in fields:
+        if f in touched:
+            rep.ok(rule, 'Dwarf.' + f, 'consulted', fn.loc(), why='field is read inside lookup_offset_id')
+        else:
+            rep.bad(rule, 'Dwarf.' + f, 'Dwarf::lookup_offset_id never consults the `%s` section, so format_error cannot locate errors raised inside it' % f, fn.loc())
